@@ -63,8 +63,32 @@ def c13(tier, seed):
     if rc != 0:
         viol.append({"signature": "c13-const-assert", "concrete": True,
                      "payload": {"what": "a compile-time size/alignment assertion on MiniVec<T> / Option<MiniVec<T>> fails", "rustc": msgs[:5], "program": path}})
+    # the same assertions against the crate compiled in other configurations (the layout must not depend on the
+    # profile, on target features or on cargo features): the crate is compiled here directly from /repo/src
+    serde = sorted(glob.glob(DEPS + "/libserde-*.rlib"), key=os.path.getmtime)
+    configs = [("optimized", ["-C", "opt-level=3", "-C", "debug-assertions=off"]),
+               ("avx", ["-C", "target-feature=+avx"]), ("avx2-opt", ["-C", "target-feature=+avx2,+fma", "-C", "opt-level=2"]),
+               ("debug-assertions-opt", ["-C", "opt-level=1", "-C", "debug-assertions=on"])]
+    if serde:
+        configs.append(("serde-feature", ["--cfg", 'feature="serde"', "--extern", "serde=" + serde[-1], "-L", "dependency=" + DEPS]))
+    for name, flags in configs:
+        lib = "%s/libminivec_%s.rlib" % (d, name.replace("-", "_"))
+        p1 = subprocess.run(["rustc", "--edition", "2018", "--crate-type", "rlib", "--crate-name", "minivec", "-A", "warnings", "-o", lib] + flags + ["/repo/src/lib.rs"],
+                            capture_output=True, text=True)
+        if p1.returncode != 0:
+            viol.append({"signature": "c13-build-" + name, "concrete": False, "payload": {"what": "the crate does not compile in configuration " + name, "stderr": p1.stderr[-400:]}})
+            continue
+        tflags = [f for f in flags if not f.startswith("feature=") and f != "--cfg"]
+        p2 = subprocess.run(["rustc", "--edition", "2021", "--emit=metadata", "--crate-type", "lib", "-A", "warnings", "--extern", "minivec=" + lib,
+                             "-L", "dependency=" + DEPS, "-o", "%s/c13_%s.rmeta" % (d, name)] + [f for f in tflags if not f.startswith("serde=") and f != "--extern"] + [path],
+                            capture_output=True, text=True)
+        n += len(C13_TYPES) * 4
+        if p2.returncode != 0:
+            viol.append({"signature": "c13-const-assert-" + name, "concrete": True,
+                         "payload": {"what": "a compile-time size/alignment assertion fails when the crate is built in configuration `%s` (%s)" % (name, " ".join(flags)),
+                                     "rustc": [l for l in p2.stderr.split("\n") if "error" in l][:5], "program": path}})
     cov = {"evaluations": n, "distinct_nontrivial": n, "exhaustive": False,
-           "rule": "one const assertion per (element type, fact) over %d element types of every size/alignment class (owning, borrowing, fat-pointer, over-aligned); all distinct" % len(C13_TYPES),
+           "rule": "one const assertion per (element type, fact, build configuration) over %d element types of every size/alignment class (owning, borrowing, fat-pointer, over-aligned) and the crate built as the harness builds it, optimized without debug assertions, with AVX / AVX2 target features, optimized with debug assertions, and with the serde feature; all distinct" % len(C13_TYPES),
            "samples": src[7:10], "traces_validated_against_impl": n if rc == 0 else 0}
     return viol, cov
 
@@ -242,6 +266,11 @@ use minivec::{MiniVec, mini_vec};
 use std::collections::{HashMap, BTreeMap, hash_map::DefaultHasher};
 use std::hash::{Hash, Hasher};
 fn h<T: Hash + ?Sized>(t: &T) -> u64 { let mut s = DefaultHasher::new(); t.hash(&mut s); s.finish() }
+/// a hasher that records every `write` call separately: the same bytes fed in different pieces are a different hash for
+/// hashers that are sensitive to call boundaries (Fx, ahash), so `Borrow<[T]>` lookups need the identical call sequence
+#[derive(Default)] struct Rec(Vec<Vec<u8>>);
+impl Hasher for Rec { fn finish(&self) -> u64 { 0 } fn write(&mut self, b: &[u8]) { self.0.push(b.to_vec()); } }
+fn rec<T: Hash + ?Sized>(t: &T) -> Vec<Vec<u8>> { let mut s = Rec::default(); t.hash(&mut s); s.0 }
 struct R(u64);
 impl R { fn next(&mut self) -> u64 { self.0 = self.0.wrapping_add(0x9E3779B97F4A7C15); let mut z = self.0; z = (z ^ (z >> 30)).wrapping_mul(0xBF58476D1CE4E5B9); z = (z ^ (z >> 27)).wrapping_mul(0x94D049BB133111EB); z ^ (z >> 31) } }
 /// the same element sequence held in vectors with different histories / capacities / alignments
@@ -284,6 +313,7 @@ fn check_ord<T: Clone + Ord + Hash + std::fmt::Debug>(a: &[T], b: &[T], n: &mut 
     *n += 1;
     if va.cmp(&vb) != a.cmp(b) { bad.push(format!("cmp {:?} {:?}", a, b)); }
     if h(&va) != h(a) || h(&vb) != h(b) { bad.push(format!("hash {:?} {:?}", a, b)); }
+    if rec(&va) != rec(a) { bad.push(format!("hash-call-sequence {:?}", a)); }
     if h(&(3u8, &va, 4u8)) != h(&(3u8, a, 4u8)) { bad.push(format!("nested hash {:?}", a)); }
     if format!("{:x?}", va) != format!("{:x?}", a) || format!("{:#06X?}", va) != format!("{:#06X?}", a) { bad.push(format!("debug-hex {:?}", a)); }
     let mut m: HashMap<MiniVec<T>, u32> = HashMap::new(); m.insert(va.clone(), 1);
@@ -309,6 +339,15 @@ fn main() {
     check_ord(&ia, &ib, &mut n, &mut bad);
     let sa: Vec<String> = ia.iter().map(|x| x.to_string()).collect(); let sb: Vec<String> = ib.iter().map(|x| x.to_string()).collect();
     check_ord(&sa, &sb, &mut n, &mut bad);
+    // one-byte element types whose order is not the order of their bytes
+    let ba: Vec<i8> = ia.iter().map(|x| (*x as i8).wrapping_mul(if *x % 2 == 0 { -1 } else { 1 })).collect();
+    let bb: Vec<i8> = ib.iter().map(|x| (*x as i8).wrapping_mul(if *x % 3 == 0 { -1 } else { 1 })).collect();
+    check_ord(&ba, &bb, &mut n, &mut bad);
+    let ra: Vec<std::cmp::Reverse<u8>> = ia.iter().map(|x| std::cmp::Reverse(*x as u8)).collect();
+    let rb: Vec<std::cmp::Reverse<u8>> = ib.iter().map(|x| std::cmp::Reverse(*x as u8)).collect();
+    check_ord(&ra, &rb, &mut n, &mut bad);
+    let ua: Vec<u8> = ia.iter().map(|x| *x as u8).collect(); let ub: Vec<u8> = ib.iter().map(|x| *x as u8).collect();
+    check_ord(&ua, &ub, &mut n, &mut bad);
   }
   let e: MiniVec<i64> = mini_vec![];
   if e != MiniVec::<i64>::new() || h(&e) != h(&[0i64; 0][..]) { bad.push("empty".into()); }
@@ -341,6 +380,6 @@ def c15(tier, seed):
         if p.returncode not in (0, 1):
             viol.append({"signature": "c15-crash", "concrete": True, "payload": {"what": "differential program crashed", "rc": p.returncode, "stderr": p.stderr[-300:]}})
     cov = {"evaluations": n, "distinct_nontrivial": n, "traces_validated_against_impl": n if not viol else 0,
-           "rule": "seeded pairs of element sequences (f64 incl. NaN/-0.0/inf, i64, String; equal, prefix-related, differing at one position, empty), each held in 6 vectors with different histories/capacities/alignments; every operator and HashMap/BTreeMap lookup by slice compared with the slice result; each (pair, variant a, variant b) counted once",
+           "rule": "seeded pairs of element sequences (f64 incl. NaN/-0.0/inf, i64, String, i8 with negatives, Reverse<u8>, u8; equal, prefix-related, differing at one position, empty), each held in 6 vectors with different histories/capacities/alignments; every operator, the Hasher call sequence and HashMap/BTreeMap lookup by slice compared with the slice result; each (pair, variant a, variant b) counted once",
            "samples": [out[:200]]}
     return viol, cov
